@@ -23,18 +23,22 @@ S = 10**6
 HALS_CAP = 2000          # sweeps when not in exact=True mode (the solver's own stopping rule never fires, see report)
 FISTA_CAP = 5000
 VARIANTS = [("hals", "cold"), ("hals", "ones"), ("hals", "exact"),
-            ("hals", "nzr"), ("hals", "eps"), ("hals", "subopt_a"), ("hals", "trunc"),       # option / chained variants: see OPTIONAL
+            ("hals", "nzr"), ("hals", "eps"), ("hals", "subopt_a"), ("hals", "trunc"),       # option / chained variants
+            ("hals", "far4"), ("hals", "far5"), ("hals", "farc"),                            # legal starts FAR from the solution
             ("fista", "cold"), ("fista", "ones"), ("fista", "tol0"), ("fista", "partial_a"), ("fista", "other"),
-            ("fista", "eps"), ("fista", "subopt_a"), ("fista", "trunc"),
+            ("fista", "eps"), ("fista", "subopt_a"), ("fista", "trunc"), ("fista", "far4"), ("fista", "far5"), ("fista", "farc"),
             ("active_set", "cold"), ("active_set", "ones"), ("active_set", "pos_small"), ("active_set", "pos_big"),
             ("active_set", "partial_a"), ("active_set", "partial_b"), ("active_set", "other"),
             ("active_set", "subopt_a"), ("active_set", "subopt_b"), ("active_set", "trunc1"), ("active_set", "trunc2"),
+            ("active_set", "far4"), ("active_set", "far5"), ("active_set", "farc"),
             ("admm", "none")]
 # variants run on the extra batch of penalty-free problems reserved for the cheap solvers
 CHEAP_VARIANTS = [("active_set", v) for v in ("cold", "ones", "pos_small", "pos_big", "partial_a", "partial_b", "other",
-                                               "subopt_a", "subopt_b", "trunc1", "trunc2")] + \
+                                               "subopt_a", "subopt_b", "trunc1", "trunc2", "far4", "far5", "farc")] + \
                  [("fista", "partial_b"), ("fista", "pos_big"), ("fista", "subopt_b"), ("fista", "trunc")]
-WARM = ("ones", "pos_small", "pos_big", "partial_a", "partial_b", "other", "subopt_a", "subopt_b")
+WARM = ("ones", "pos_small", "pos_big", "partial_a", "partial_b", "other", "subopt_a", "subopt_b", "far4", "far5", "farc")
+FAR = ("far4", "far5", "farc")      # 1e4 x / 1e5 x random positive; 2^17 on the complement of the solution's support
+HALS_CAP_FAR = 4000                 # sweeps for the far starts (linear convergence has 1e5 more to go)
 # length of the truncated first run whose output is the start of the second, full run (chained calls)
 TRUNC = {("active_set", "trunc1"): 1, ("active_set", "trunc2"): 2, ("fista", "trunc"): 10, ("hals", "trunc"): 2}
 EPS = (1, 2)             # the lower bound epsilon = 1/2 of the "eps" variants (NNLS.tla: EpsSet)
@@ -66,6 +70,10 @@ def make_start(variant, rng, n, k, other):
     elif variant in ("partial_a", "partial_b"):
         keep = 0.75 if variant == "partial_a" else 0.5
         X = np.array([[(rng.random() * 2 if rng.random() < keep else 0.0) for _ in range(k)] for _ in range(n)])
+    elif variant in ("far4", "far5"):
+        X = (1e4 if variant == "far4" else 1e5) * (1 + np.array([[rng.random() for _ in range(k)] for _ in range(n)]))
+    elif variant == "farc":
+        X = np.where(np.asarray(other, dtype=np.float64) > 0, 0.0, 2.0 ** 17)       # `other` = the solution of this problem
     elif variant in ("other", "subopt_a", "subopt_b"):
         X = np.asarray(other, dtype=np.float64)
     else:
@@ -174,6 +182,18 @@ def _cols(a):
     return [[qs(v, S) for v in a[:, j]] for j in range(a.shape[1])]
 
 
+def _fine(a):
+    """digits 7-12 of each entry: rint((x * 1e6 - rint(x * 1e6)) * 1e6), so that x = (y + f * 1e-6) * 1e-6 to 1e-12"""
+    out = []
+    for j in range(a.shape[1]):
+        col = []
+        for v in a[:, j]:
+            v6 = float(v) * S
+            col.append(int(round((v6 - round(v6)) * S)) if np.isfinite(v6) and abs(v6) < 2e9 else 0)
+        out.append(col)
+    return out
+
+
 def gen_problem(case):
     """measured tier: G = A^T A + I (integer A, cond <= cond_max), B = A^T M - shift (integers)."""
     rng = np.random.default_rng(case["gen_seed"])
@@ -196,7 +216,7 @@ def execute(case):
         G, B, cond = gen_problem(case)
     n, k = B.shape
     ev = {"id": case["id"], "kind": case["kind"], "solver": case["solver"], "variant": case["variant"], "mode": case["mode"],
-          "p1": case["p1"], "p2": case["p2"], "q": case["q"], "raised": False, "exc": "", "size": 0, "nlow": 0, "x": [],
+          "p1": case["p1"], "p2": case["p2"], "q": case["q"], "raised": False, "exc": "", "size": 0, "nlow": 0, "x": [], "xf": [],
           "nzr": bool(case.get("nzr", False)), "zero_rows": 0, "ep": case.get("ep", 0), "eq": case.get("eq", 1),
           "sa": case.get("sa", 0), "sb": case.get("sb", 0), "dt": case.get("dt", "float64")}
     if case["kind"] == "exact":
@@ -208,6 +228,7 @@ def execute(case):
         ev["size"] = int(X.size)
         if X.shape == (n, k):
             ev["x"] = _cols(X)
+            ev["xf"] = _fine(X)
             ev["nlow"] = int(np.sum(X < case.get("ep", 0) / case.get("eq", 1)))      # entries below the bound, on the floats
             ev["zero_rows"] = int(np.sum(np.all(X == 0, axis=1)))
             if case["kind"] == "kkt":
@@ -282,8 +303,10 @@ def build_cases(chk, cfgs, thorough):
         n, k = len(G), len(cols)
         ls = np.linalg.solve(Gf, Bf)
         extra = tuple(tuple(r) for r in G) == ((19, 9), (9, 19))
+        sol = _reference(Gf, Bf, p1 / q_, p2 / q_)           # used for the "farc" start and the rows_equal flag only
         flags = {"ls_nonpos": bool(np.all(ls <= 0)), "batch": batch,
-                 "signed": any(G[i][j] < 0 for i in range(n) for j in range(n))}
+                 "signed": any(G[i][j] < 0 for i in range(n) for j in range(n)),
+                 "rows_equal": bool(np.all(np.abs(sol - sol[0:1, :]) < 1e-9))}
         other = None
         for solver, variant in variants:
             if solver in ("active_set", "admm") and (p1 or p2):
@@ -295,6 +318,10 @@ def build_cases(chk, cfgs, thorough):
                     continue
                 if variant != "nzr" and pi % 3 != ("eps", "subopt_a", "trunc").index(variant):
                     continue
+            if solver == "hals" and variant in FAR:
+                if pi % 3 != FAR.index(variant):
+                    continue
+                opt["cap"] = HALS_CAP_FAR
             if variant == "nzr":
                 opt["nzr"] = True
             if variant == "eps":
@@ -303,7 +330,8 @@ def build_cases(chk, cfgs, thorough):
                 opt.update(ep=EPS[0], eq=EPS[1])
             if (solver, variant) in TRUNC:
                 opt["trunc"] = TRUNC[(solver, variant)]
-            mode = "exact" if (solver == "hals" and exact_mode and not opt) else "cap"
+            # exact=True (50 000 sweeps on the clean tree) on a few problems, far starts included
+            mode = "exact" if (solver == "hals" and exact_mode and (not opt or variant in FAR)) else "cap"
             n_exact_mode += mode == "exact"
             start = None
             if variant in WARM and not (solver == "hals" and variant == "ones"):
@@ -314,6 +342,8 @@ def build_cases(chk, cfgs, thorough):
                     src = other
                 elif variant.startswith("subopt"):
                     src = sub_solution(Gf, Bf, p1 / q_, p2 / q_, random_supports(n, k))
+                elif variant == "farc":
+                    src = sol
                 start = make_start(variant, rng, n, k, src)
             c = {"id": "C13/%s-%s/%06d" % (solver, variant, len(cases)), "kind": "exact", "solver": solver, "variant": variant,
                  "mode": mode, "G": [list(r) for r in G], "B": cols, "p1": p1, "p2": p2, "q": q_, "start": start, "flags": flags,
@@ -346,6 +376,8 @@ def build_cases(chk, cfgs, thorough):
             dt, sa, sb = draw_units()
         Gm, Bm, _ = gen_problem({"gen_seed": gs, "n": n, "k": k, "cond_max": 60.0})
         kflags = {"ls_nonpos": bool(np.all(np.linalg.solve(Gm, Bm) <= 0)), "batch": "cheap" if cheap else "main", "signed": True}
+        ksol = sub_solution(Gm, Bm, p1 / q_, p2 / q_, [list(range(n))] * k)       # "farc" start and rows_equal flag only
+        kflags["rows_equal"] = bool(np.all(np.abs(ksol - ksol[0:1, :]) < 1e-9))
         # solution-like start of another problem: clipped least-squares solution for the reversed, negated right-hand sides
         other = np.clip(np.linalg.solve(Gm, -Bm[::-1, :]), 0, None)
         for solver, variant in (CHEAP_VARIANTS if cheap else VARIANTS):
@@ -354,6 +386,8 @@ def build_cases(chk, cfgs, thorough):
             if variant in ("exact", "eps"):
                 continue           # no exact reference beyond 3 unknowns; the epsilon bound is judged in the exact tier only
             if solver == "hals" and ((variant == "nzr" and k < 2) or variant in ("subopt_a", "trunc") and t % 2):
+                continue
+            if solver == "hals" and variant in FAR and t % 3 != FAR.index(variant):
                 continue
             opt = {}
             if variant == "nzr":
@@ -365,6 +399,8 @@ def build_cases(chk, cfgs, thorough):
                 src = other
                 if variant.startswith("subopt"):
                     src = sub_solution(Gm, Bm, p1 / q_, p2 / q_, [[i for i in range(n) if rng.random() < 0.5][: n - 1] for _ in range(k)])
+                elif variant == "farc":
+                    src = ksol
                 start = make_start(variant, rng, n, k, src)
             c = {"id": "C13/kkt-%s-%s/%06d" % (solver, variant, len(cases)), "kind": "kkt", "solver": solver, "variant": variant,
                  "mode": "cap", "cap": 6000, "n": n, "k": k, "p1": p1, "p2": p2, "q": q_, "gen_seed": gs, "cond_max": 60.0,
